@@ -295,6 +295,9 @@ func (e *Env) eval(t *Term) Val {
 		return Val{K: TInt, I: prod}
 	case "idiv":
 		d := a(1).I
+		// piecewise: numerator and divisor are part of the signature (n/m vs (n+1)/m agree almost everywhere)
+		e.recAtom("idiv-num", float64(a(0).I), false)
+		e.recAtom("idiv-den", float64(d), false)
 		if d == 0 {
 			return Val{K: TInt, I: 0}
 		}
@@ -312,6 +315,8 @@ func (e *Env) eval(t *Term) Val {
 		return Val{K: TInt, I: q}
 	case "imod":
 		d := a(1).I
+		e.recAtom("imod-num", float64(a(0).I), false)
+		e.recAtom("imod-den", float64(d), false)
 		if d == 0 {
 			return Val{K: TInt, I: 0}
 		}
